@@ -11,6 +11,7 @@ package mc
 import (
 	"fmt"
 	"strings"
+	"time"
 
 	"github.com/spq/pkappa2/internal/verifsync"
 )
@@ -26,13 +27,19 @@ type schedThread struct {
 	try    bool
 	tryOK  bool
 	panic  string
+	// parked at a reading of the clock
+	atClock bool
+	clock   time.Time
 }
 
 // SchedPoint is one decision of an execution.
 type SchedPoint struct {
-	Enabled []int // thread ids in canonical order: the running thread first if it can continue, then ascending
-	Chosen  int   // index into Enabled
+	Enabled             []int // thread ids in canonical order: the running thread first if it can continue, then ascending
+	Chosen              int   // index into Enabled
 	RunningStillEnabled bool
+	// Data: not a choice of thread but of an environment answer (how far the clock has moved at a reading): the
+	// alternatives are numbered 0..len(Enabled)-1 and cost no preemption
+	Data bool
 }
 
 // SchedRun is one complete execution.
@@ -58,6 +65,10 @@ func (r *SchedRun) Schedule() string {
 		if i > 0 {
 			sb.WriteByte(' ')
 		}
+		if p.Data {
+			fmt.Fprintf(&sb, "clock+%dms", p.Chosen)
+			continue
+		}
 		fmt.Fprintf(&sb, "T%d", p.Enabled[p.Chosen])
 	}
 	return sb.String()
@@ -67,6 +78,20 @@ type scheduler struct {
 	threads []*schedThread
 	cur     *schedThread
 	yield   chan struct{}
+	clock   time.Time
+}
+
+// SchedClockBase is what the controlled clock shows before it was moved.
+var SchedClockBase = time.Date(2024, 1, 2, 3, 4, 5, 0, time.UTC)
+
+// Now: the thread parks; when it is chosen to go on, the scheduler decides whether the clock still shows the same
+// millisecond or the next one.
+func (s *scheduler) Now() time.Time {
+	t := s.cur
+	t.want, t.atClock = nil, true
+	s.park()
+	t.atClock = false
+	return t.clock
 }
 
 func (s *scheduler) Controlled() bool { return s.cur != nil }
@@ -133,7 +158,7 @@ func (t *schedThread) enabled() bool {
 // RunSchedule executes the thread bodies once.  The first len(prefix) decisions are forced (an index that is out of
 // range is a harness error: the execution did not repeat), later ones take choice 0.
 func RunSchedule(bodies []func(), prefix []int) *SchedRun {
-	s := &scheduler{yield: make(chan struct{})}
+	s := &scheduler{yield: make(chan struct{}), clock: SchedClockBase}
 	for i := range bodies {
 		s.threads = append(s.threads, &schedThread{id: i, wake: make(chan struct{})})
 	}
@@ -183,6 +208,19 @@ func RunSchedule(bodies []func(), prefix []int) *SchedRun {
 		}
 		run.Points = append(run.Points, SchedPoint{Enabled: en, Chosen: choice, RunningStillEnabled: last != nil && last.enabled()})
 		t := s.threads[en[choice]]
+		if t.atClock {
+			// the reading of the clock: the same millisecond as the last reading, or the next one
+			adv := 0
+			if n := len(run.Points); n < len(prefix) {
+				adv = prefix[n]
+				if adv < 0 || adv > 1 {
+					Fatal("scheduler: replay diverged at decision %d: clock choice %d", n, adv)
+				}
+			}
+			run.Points = append(run.Points, SchedPoint{Enabled: []int{0, 1}, Chosen: adv, Data: true})
+			s.clock = s.clock.Add(time.Duration(adv) * time.Millisecond)
+			t.clock = s.clock
+		}
 		s.cur = t
 		t.wake <- struct{}{}
 		<-s.yield
@@ -231,7 +269,7 @@ func ExploreSchedules(bound int, mk func() (bodies []func(), ctx any), check fun
 		used := make([]int, len(run.Points))
 		for i, p := range run.Points {
 			used[i] = pre
-			if p.RunningStillEnabled && p.Chosen != 0 {
+			if !p.Data && p.RunningStillEnabled && p.Chosen != 0 {
 				pre++
 			}
 		}
@@ -240,7 +278,7 @@ func ExploreSchedules(bound int, mk func() (bodies []func(), ctx any), check fun
 			p := run.Points[i]
 			for alt := 1; alt < len(p.Enabled); alt++ {
 				cost := used[i]
-				if p.RunningStillEnabled {
+				if !p.Data && p.RunningStillEnabled {
 					cost++
 				}
 				if cost > bound {
